@@ -6,7 +6,7 @@
 //
 //   tree    as in h_C18.cpp:  ports := <count> port* ; port := <hexname> <hexmeta|N> <0|1> [ports]
 //   kinds   one letter per port in the same (pre)order:
-//             R rRecur(sub)  P rRecurp(subp)  A rRecurs(arr,3)  M sub-tree "sub" with a multi-component
+//             R rRecur(sub)  P rRecurp(subp)  A rRecurs(arr,12)  M sub-tree "sub" with a multi-component
 //             name (harness callback that strips as many components as the name has)
 //             T toggle en0  U toggle en1  V rParamI(val)  S rSelf  L plain leaf
 //   case    walk <tree> <kinds> <hexbuf> <rt 0|1> <nulls> <dis> <selfoff> <off>
@@ -20,7 +20,9 @@
 //             buf  the name buffer afterwards (as a string)
 //             z    1 = only zeros behind the terminator at every walker call and at return
 //             d    per reported pair: the ids of the leaf ports the real dispatch of the
-//                  address invoked, joined by '+', '-' if none
+//                  address invoked (no location buffer), joined by '+', '-' if none
+//             dl   the same dispatch with a location buffer: <id>@<hex loc the leaf saw>+...
+//                  #<d.matches>#<hex loc afterwards>
 #include "hcommon.h"
 #include <rtosc/ports.h>
 #include <rtosc/port-sugar.h>
@@ -40,22 +42,22 @@ struct RunPorts : Ports {
 };
 
 struct N3 { static RunPorts ports; bool en0, en1; int val; };
-struct N2 { static RunPorts ports; bool en0, en1; int val; N3 sub; N3 *subp; N3 arr[3]; N3 spare; };
-struct N1 { static RunPorts ports; bool en0, en1; int val; N2 sub; N2 *subp; N2 arr[3]; N2 spare; };
-struct N0 { static RunPorts ports; bool en0, en1; int val; N1 sub; N1 *subp; N1 arr[3]; N1 spare; };
+struct N2 { static RunPorts ports; bool en0, en1; int val; N3 sub; N3 *subp; N3 arr[12]; N3 spare; };
+struct N1 { static RunPorts ports; bool en0, en1; int val; N2 sub; N2 *subp; N2 arr[12]; N2 spare; };
+struct N0 { static RunPorts ports; bool en0, en1; int val; N1 sub; N1 *subp; N1 arr[12]; N1 spare; };
 RunPorts N0::ports, N1::ports, N2::ports, N3::ports;
 
 // template ports: index 0 sub/  1 sub:  2 subp/  3 arr#3/  4 en0  5 en1  6 val  7 self:
 #define rObject N0
-static const Ports tmpl0 = { rRecur(sub, "d"), rRecurp(subp, "d"), rRecurs(arr, 3, "d"),
+static const Ports tmpl0 = { rRecur(sub, "d"), rRecurp(subp, "d"), rRecurs(arr, 12, "d"),
                              rToggle(en0, "d"), rToggle(en1, "d"), rParamI(val, "d"), rSelf(N0) };
 #undef rObject
 #define rObject N1
-static const Ports tmpl1 = { rRecur(sub, "d"), rRecurp(subp, "d"), rRecurs(arr, 3, "d"),
+static const Ports tmpl1 = { rRecur(sub, "d"), rRecurp(subp, "d"), rRecurs(arr, 12, "d"),
                              rToggle(en0, "d"), rToggle(en1, "d"), rParamI(val, "d"), rSelf(N1) };
 #undef rObject
 #define rObject N2
-static const Ports tmpl2 = { rRecur(sub, "d"), rRecurp(subp, "d"), rRecurs(arr, 3, "d"),
+static const Ports tmpl2 = { rRecur(sub, "d"), rRecurp(subp, "d"), rRecurs(arr, 12, "d"),
                              rToggle(en0, "d"), rToggle(en1, "d"), rParamI(val, "d"), rSelf(N2) };
 #undef rObject
 #define rObject N3
@@ -88,10 +90,13 @@ static void multi_cb(const char *msg, RtData &d)
     C::ports.dispatch(msg, d);
 }
 
+// the location buffer each of those callbacks saw ("" = none)
+static std::vector<std::string> reached_loc;
 static cb_t recording(cb_t inner)
 {
     return [inner](const char *m, RtData &d) {
         reached.push_back(d.port);
+        reached_loc.push_back(d.loc ? std::string(d.loc) : std::string());
         if(inner) inner(m, d);
     };
 }
@@ -265,7 +270,13 @@ static void init(N0 &o) { init_obj(o); init(o.sub); init(o.spare); o.subp = &o.s
 struct Rec : RtData {
     // no location buffer: the plain matching loop of Ports::dispatch (the hashed
     // strategy used with a location buffer is C04's subject)
-    Rec() { loc = nullptr; loc_size = 0; }
+    char locbuf[1024];
+    explicit Rec(bool with_loc)
+    {
+        memset(locbuf, 0, sizeof(locbuf));
+        loc = with_loc ? locbuf : nullptr;
+        loc_size = with_loc ? sizeof(locbuf) : 0;
+    }
     void reply(const char *, const char *, ...) override {}
     void reply(const char *) override {}
     void broadcast(const char *, const char *, ...) override {}
@@ -369,6 +380,9 @@ int main()
         o << " buf=" << hex(g_buf, strlen(g_buf)) << " z=" << (zeros_ok ? 1 : 0) << " d=";
         // the real dispatch of every reported address (only meaningful for a walk that started at the root)
         if(walked.empty()) o << "-";
+        std::vector<std::string> dls;
+        static N0 fresh;
+        init(fresh);
         for(size_t k = 0; k < walked.size(); ++k) {
             if(k) o << ";";
             std::string rel = walked[k].addr.size() >= pre.size() ? "/" + walked[k].addr.substr(pre.size()) : walked[k].addr;
@@ -384,18 +398,32 @@ int main()
                 if(types[a] == 's' || types[a] == 'S') av[a].s = "";
             size_t len = rtosc_amessage(msg, sizeof(msg), rel.c_str(), types.c_str(), av.data());
             ExactBuf mb(std::vector<uint8_t>(msg, msg + len));
-            Rec d;
-            N0 fresh;
-            init(fresh);
-            d.obj = &fresh;
-            reached.clear();
-            N0::ports.dispatch((const char *)mb.p, d, true);
-            if(reached.empty()) o << "-";
-            for(size_t r = 0; r < reached.size(); ++r) {
-                if(r) o << "+";
-                o << (reached[r] == walked[k].p ? id_of(reached[r], rel) : std::string("other"));
+            std::string dl_part;
+            for(int with_loc = 0; with_loc < 2; ++with_loc) {
+                Rec d(with_loc != 0);
+                d.obj = &fresh;
+                reached.clear();
+                reached_loc.clear();
+                N0::ports.dispatch((const char *)mb.p, d, true);
+                std::ostringstream part;
+                if(reached.empty()) part << "-";
+                for(size_t r = 0; r < reached.size(); ++r) {
+                    if(r) part << "+";
+                    part << (reached[r] == walked[k].p ? id_of(reached[r], rel) : std::string("other"));
+                    if(with_loc) part << "@" << hex(reached_loc[r].data(), reached_loc[r].size());
+                }
+                if(with_loc) {
+                    part << "#" << d.matches << "#" << hex(d.loc, strlen(d.loc));
+                    dl_part = part.str();
+                } else o << part.str();
             }
+            dls.push_back(dl_part);
         }
+        // the same dispatches with a location buffer (hashed / linear lookup with loc):
+        //   <id>@<hexloc seen by the leaf>+...#<matches>#<hexloc afterwards>
+        o << " dl=";
+        if(dls.empty()) o << "-";
+        for(size_t k = 0; k < dls.size(); ++k) o << (k ? ";" : "") << dls[k];
         puts(o.str().c_str());
         free(g_buf);
     }
